@@ -3,6 +3,7 @@
 package querylog
 
 import (
+	"math"
 	"context"
 	"fmt"
 	"io"
@@ -216,8 +217,7 @@ func c20HistoryCase(t *testing.T, out *vfOut, r *vfRand, dir, kind string, files
 
 	gapTargets := func() (inFile, betweenFiles []int64) {
 		for i := 0; i+1 < n; i++ {
-			if all[i+1].ts-all[i].ts > 1 {
-				ts := all[i].ts + r.Range(1, all[i+1].ts-all[i].ts-1)
+			if ts, ok := c20Between(r, all[i].ts, all[i+1].ts); ok {
 				if fileOf[i] == fileOf[i+1] {
 					inFile = append(inFile, ts)
 				} else {
@@ -242,9 +242,15 @@ func c20HistoryCase(t *testing.T, out *vfOut, r *vfRand, dir, kind string, files
 				st.ts, st.tk = all[0].ts-500, "older-than-all"
 			case at == -2:
 				st.ts, st.tk = all[n-1].ts+500, "newer-than-all"
+			case at == -3:
+				st.ts, st.tk = c20Year1700, "far-older-than-all"
+			case at == -4:
+				st.ts, st.tk = math.MinInt64, "far-older-than-all"
+			case at == -5:
+				st.ts, st.tk = math.MaxInt64, "far-newer-than-all"
 			default:
 				i := -at - 10
-				st.ts = all[i].ts + (all[i+1].ts-all[i].ts)/2
+				st.ts = c20Mid(all[i].ts, all[i+1].ts)
 				st.tk = map[bool]string{true: "between-records", false: "between-files"}[fileOf[i] == fileOf[i+1]]
 			}
 		}
@@ -261,9 +267,17 @@ func c20HistoryCase(t *testing.T, out *vfOut, r *vfRand, dir, kind string, files
 		case choice <= 11:
 			var ts int64
 			tk := ""
-			switch k := r.Intn(8); {
+			switch k := r.Intn(10); {
 			case n == 0:
 				ts, tk = r.Range(1, 2_000_000_000_000_000_000), "any"
+			case k == 8 || k == 9:
+				// anywhere in the int64 range, the wrap boundaries of the stored stamps included
+				ts, tk = vfPick(r, c20FarTargets(r, all)), "far"
+				if rk := c20Rank(all, ts); rk == -1 {
+					tk = "far-older-than-all"
+				} else if rk == -2 {
+					tk = "far-newer-than-all"
+				}
 			case k <= 2:
 				ts, tk = all[r.Intn(n)].ts, "present"
 			case k == 3:
